@@ -90,6 +90,10 @@ var EmOf = map[string]int{
 
 func PoolCall(p *engine.GenginePool, c *Call, st *engine.Stag, data map[string]interface{}) (error, map[string]interface{}) {
 	switch c.Via {
+	case "emMulti0": // the pool's current model, not set by the driver
+		return p.ExecuteRulesWithMultiInputWithSpecifiedEM(data)
+	case "emSelected0":
+		return p.ExecuteSelectedWithSpecifiedEM(data, c.Names)
 	case "em":
 		_ = p.SetExecModel(EmOf[c.Method])
 		return p.ExecuteRulesWithSpecifiedEM("stag", st, "", nil)
